@@ -258,7 +258,7 @@ def rule_simul(facts):
     from .c10carry import _self_field
     r = RuleResult("C07-SIMUL", "in every aggregate-state merge, a field of self that was already overwritten is not read to compute a different field "
                    "(the combined state is a function of the two input states)", floor=20)
-    for rec in facts.all_fns(["glaredb_core"]):
+    for rec in facts.all_fns(["glaredb_core"], contains="AggregateState"):
         fid = rec["id"]
         if not (fid.endswith("::merge") or fid.endswith("::combine")) or "AggregateState" not in fid:
             continue
